@@ -3257,7 +3257,12 @@ fn get_discovered_reader_incompatible_qos_policy_list(
     if &writer_qos.latency_budget > discovered_reader_data.latency_budget() {
         incompatible_qos_policy_list.push(LATENCYBUDGET_QOS_POLICY_ID);
     }
-    if &writer_qos.liveliness < discovered_reader_data.liveliness() {
+    // Kind and lease duration are requested/offered separately: offered kind >= requested kind
+    // and offered lease duration <= requested lease duration
+    if writer_qos.liveliness.kind < discovered_reader_data.liveliness().kind
+        || writer_qos.liveliness.lease_duration
+            > discovered_reader_data.liveliness().lease_duration
+    {
         incompatible_qos_policy_list.push(LIVELINESS_QOS_POLICY_ID);
     }
     if writer_qos.reliability.kind < discovered_reader_data.reliability().kind {
@@ -3316,7 +3321,12 @@ fn get_discovered_writer_incompatible_qos_policy_list(
     if &data_reader.qos.latency_budget < publication_builtin_topic_data.latency_budget() {
         incompatible_qos_policy_list.push(LATENCYBUDGET_QOS_POLICY_ID);
     }
-    if &data_reader.qos.liveliness > publication_builtin_topic_data.liveliness() {
+    // Kind and lease duration are requested/offered separately: offered kind >= requested kind
+    // and offered lease duration <= requested lease duration
+    if data_reader.qos.liveliness.kind > publication_builtin_topic_data.liveliness().kind
+        || data_reader.qos.liveliness.lease_duration
+            < publication_builtin_topic_data.liveliness().lease_duration
+    {
         incompatible_qos_policy_list.push(LIVELINESS_QOS_POLICY_ID);
     }
     if data_reader.qos.reliability.kind > publication_builtin_topic_data.reliability().kind {
